@@ -55,4 +55,13 @@ def unpack (l : List Nat) (i : Nat) : Nat := l.getD i 0
 /-- `[x for x in xs if x not in ys][0]` (`IndexError` → `none`) -/
 def firstNotIn (xs ys : List Nat) : Option Nat := (xs.filter (fun x => !ys.contains x)).head?
 
+/-- `a[k]` used as a value (`KeyError` → 0: never under the hypotheses of the theorems) -/
+def aGetD {κ : Type} [BEq κ] (a : AMap κ) (k : κ) : Nat := (aGet a k).getD 0
+
+/-- `[x for x in xs if x not in ys][0]` as a value (`IndexError` → 0) -/
+def firstNotInD (xs ys : List Nat) : Nat := (firstNotIn xs ys).getD 0
+
+/-- `faces[i] = F` on a list of faces -/
+def listSet (l : List (List Nat)) (i : Nat) (F : List Nat) : List (List Nat) := l.set i F
+
 end Mouette.VolS
